@@ -5,6 +5,7 @@
 package main
 
 import (
+	"flag"
 	"fmt"
 	"os"
 	"sort"
@@ -399,6 +400,7 @@ func main() {
 		fmt.Fprintln(os.Stderr, "clock patch not seen by engine code")
 		os.Exit(3)
 	}
+	flag.CommandLine.Parse(nil) // the mergeset index asks lib/memory, which insists on parsed flags
 	switch mode {
 	case "ix":
 		runIx(n)
